@@ -231,6 +231,15 @@ func directedTTL(cfg StackCfg) []Scenario {
 				feed("t", get)))
 		}
 	}
+	// a touch that makes the entry permanent, then append / prepend: it stays permanent
+	for _, pend := range []string{"append", "prepend"} {
+		out = append(out, mk("C09-dir-touch0-"+pend,
+			feed("b", Command{Kind: "set", Key: k, Flags: 5, Exptime: 100, Data: []byte("value"), Opaque: 1}),
+			feed("t", Command{Kind: "touch", Key: k, Exptime: 0, Opaque: 2}),
+			feed("b", Command{Kind: pend, Key: k, Data: []byte("xy"), Opaque: 3}),
+			feed("t", get),
+			feed("b", get)))
+	}
 	// append / prepend re-store the value: "never expires" must stay never, and a date more than
 	// 30 days ahead must stay that date (neither survives being turned into a remaining lifetime)
 	for pi, pend := range []string{"append", "prepend"} {
